@@ -258,6 +258,7 @@ const ERRORS: &[ErrSpec] = &[
     ErrSpec { name: "-d bad escape", opts: &["-d", "\\q"], tail: "", lazy: false },
     ErrSpec { name: "-d bad hex", opts: &["-d", "\\xZZ"], tail: "", lazy: false },
     ErrSpec { name: "unknown option", opts: &["--no-such-option"], tail: "", lazy: false },
+    ErrSpec { name: "option value that is not valid UTF-8", opts: &["-I", "RAW-BYTES"], tail: "", lazy: false },
     ErrSpec { name: "-a missing file", opts: &["-a", "c/does-not-exist"], tail: "", lazy: false },
     ErrSpec { name: "unterminated single quote", opts: &["-n", "1"], tail: "'abc def\n", lazy: true },
     ErrSpec { name: "unterminated double quote", opts: &["-n", "1"], tail: "x \"abc\n", lazy: true },
@@ -279,7 +280,20 @@ fn check_err(ctx: &mut Ctx, c: &ErrCase) -> Outcome {
     // -s SIZE: room for the command and a short argument, not for LONG
     let size = rec.len() + 1 + 12;
     let long = "L".repeat(40);
-    let opts: Vec<OsString> = spec.opts.iter().map(|o| if *o == "SIZE" { size.to_string().into() } else { OsString::from(*o) }).collect();
+    let opts: Vec<OsString> = spec
+        .opts
+        .iter()
+        .map(|o| {
+            if *o == "SIZE" {
+                size.to_string().into()
+            } else if *o == "RAW-BYTES" {
+                use std::os::unix::ffi::OsStringExt;
+                OsString::from_vec(vec![b'{', 0xff, b'}'])
+            } else {
+                OsString::from(*o)
+            }
+        })
+        .collect();
     let mut input = String::new();
     let two_per = spec.opts.contains(&"2");
     for i in 0..c.before.len() {
